@@ -658,6 +658,15 @@ class Exec(Verifier):
     def st_For(self, s):
         ordinal, spec = self.loop_spec(s)
         src = self.iter_source(self.ev(s.iter))
+        con = self.frame.contract
+        if con is not None and isinstance(s.iter, ast.Name) and s.iter.id in getattr(con, "one_shot", ()):
+            # a parameter documented as an Iterable may be a one-shot iterator (generator, map, file): a second
+            # `for` over it sees nothing
+            key = "$consumed:" + s.iter.id
+            if self.st.loc.get(key) is not None:
+                n, elem, chk = src
+                src = (z3.IntVal(0), elem, chk)
+            self.st.loc[key] = Py("flag", True)
         self.run_loop(s, ordinal, spec, src)
 
     def iter_source(self, v):
